@@ -1261,6 +1261,36 @@ func ruleFamily(ctx *Ctx) error {
 	idx := 0
 	unlisted := 0
 	knownHit := map[string]bool{}
+	type pendR struct {
+		c RCaseR
+		o rObs
+		i int
+	}
+	var pend []pendR
+	flush := func() {
+		if len(pend) == 0 {
+			return
+		}
+		lines := make([]string, len(pend))
+		for i, p := range pend {
+			lines[i] = rModelLine(p.c, p.o)
+		}
+		reps, err := m.Ask(lines)
+		if err != nil {
+			res.Note("model driver: %v", err)
+		}
+		for i, rep := range reps {
+			p := pend[i]
+			res.ModelLines++
+			if strings.HasPrefix(rep, "unmodelled") {
+				res.Unmodelled++
+			} else if rep != p.o.Out {
+				unlisted++
+				res.Violate(common.Violation{Kind: "correspondence", Clause: "Model.Rule/Model.Flags disagree with the rule package (" + p.c.Kind + ")", Input: p.c, Impl: trunc(p.o.Out, 3000), Model: trunc(rep, 3000), Case: p.i, Note: p.o.Line})
+			}
+		}
+		pend = pend[:0]
+	}
 	run := func(c RCaseR, tag string) rObs {
 		o := runRImpl(c)
 		if o.NoTok {
@@ -1313,15 +1343,9 @@ func ruleFamily(ctx *Ctx) error {
 			}
 		}
 		if o.Panic == "" {
-			rep, err := m.Ask1(rModelLine(c, o))
-			res.ModelLines++
-			if err != nil {
-				res.Note("model driver: %v", err)
-			} else if strings.HasPrefix(rep, "unmodelled") {
-				res.Unmodelled++
-			} else if rep != o.Out {
-				unlisted++
-				res.Violate(common.Violation{Kind: "correspondence", Clause: "Model.Rule/Model.Flags disagree with the rule package (" + c.Kind + ")", Input: c, Impl: trunc(o.Out, 3000), Model: trunc(rep, 3000), Case: idx, Note: o.Line})
+			pend = append(pend, pendR{c, o, idx})
+			if len(pend) >= 300 {
+				flush()
 			}
 		}
 		idx++
@@ -1385,6 +1409,7 @@ func ruleFamily(ctx *Ctx) error {
 			}
 		}
 	}
+	flush()
 	// open known findings: replay witnesses
 	for _, f := range ctx.Findings {
 		if f.Status != "open" {
